@@ -861,6 +861,50 @@ def python_schema(world):
 from .. import guards as _G
 
 
+def ob(run, rule, site, construct, what, ok, view=None, involved=None, keep=(), **kw):
+  """run.ob with the rule of evidence "a violation needs a mechanism that was seen broken": when
+  the obligation does not hold and the analysed function hands the objects in question
+  (`involved` local names; None = anything) to code the rules did not follow -- a private helper
+  that could not be inlined, a local closure it calls -- the question is undecided, not violated."""
+  if not ok and view is not None:
+    views = view if isinstance(view, (list, tuple)) else [view]
+    for v in views:
+      esc = v.escapes(involved, keep)
+      if esc:
+        raise AnalysisError("%s: cannot decide `%s`: %s is not followed"
+                            % (v.fn.qualname, short(construct, 60) if not isinstance(construct, str)
+                               else construct[:60], short(esc[0], 60)))
+  return run.ob(rule, site, construct, what, ok, **kw)
+
+
+class Guarded(object):
+  """A view of `run` whose ob() applies the rule of evidence of `ob` above for one analysed
+  function (or several). Everything else is the run's own."""
+  def __init__(self, run, view, involved=None, keep=()):
+    self.raw = getattr(run, "raw", run)
+    self._view = view
+    self._involved = involved
+    self._keep = keep
+
+  def __getattr__(self, name):
+    return getattr(self.raw, name)
+
+  def ob(self, rule, site, construct, what, ok, **kw):
+    return ob(self.raw, rule, site, construct, what, ok, view=self._view,
+              involved=self._involved, keep=self._keep, **kw)
+
+  def about(self, *names):
+    """the same, for a question that only concerns the given local names"""
+    return Guarded(self.raw, self._view, involved=names, keep=self._keep)
+
+
+def require(world, *qualnames):
+  """The helper functions a rule anchors on must still exist (AnalysisError otherwise): a helper
+  inlined into its caller is a refactor the rule cannot follow, not a violation."""
+  for q in qualnames:
+    world.repo.func(q)
+
+
 def bind_args(call, params, skip_self=False):
   """{param: argument expr} of a call against the parameter names of the callee; None when the
   call uses * / ** or does not fit."""
@@ -1414,6 +1458,64 @@ class View(object):
 
     return P().visit(e)
 
+  # ------------------------------------------------------------------ what is not followed
+  def unfollowed(self, keep=()):
+    """Calls in this function whose body the rules do not look into: private functions of the
+    module / private methods of the class that could not be inlined (returns inside loops,
+    generators, * / ** parameters ...), and local closures that are called here.
+    [(call, kind, callee node or None)]"""
+    fi = self.fn.fi
+    top = fi
+    while top.parent is not None:
+      top = top.parent
+    repo = self.fn.world.repo
+    closures = {f.name: f for f in repo.all_functions() if f.parent is not None and
+                f.parent.qualname == fi.qualname}
+    out = []
+    for n in self.cfg.nodes:
+      for c in calls_in(n.exprs):
+        f = c.func
+        if isinstance(f, ast.Attribute) and isinstance(f.value, ast.Name) and \
+            f.value.id in ("self", "cls") and top.cls is not None and \
+            f.attr in top.cls.methods and f.attr.startswith("_") and \
+            not f.attr.startswith("__") and f.attr not in keep:
+          out.append((c, "method", top.cls.methods[f.attr].node))
+        elif isinstance(f, ast.Name) and f.id in closures and not self._plainly_bound(f.id):
+          out.append((c, "closure", closures[f.id].node))
+        elif isinstance(f, ast.Name) and f.id in fi.module.functions and \
+            f.id.startswith("_") and not f.id.startswith("__") and f.id not in keep and \
+            not self._gens_names().get(f.id):
+          out.append((c, "function", fi.module.functions[f.id].node))
+    return out
+
+  def _plainly_bound(self, name):
+    return any(self._plain_value(name, d) is not None for d in self._gens_names().get(name, ()))
+
+  def escapes(self, involved=None, keep=()):
+    """Unfollowed calls that may matter for a question about the names in `involved` (None: any
+    unfollowed call matters): a closure whose body mentions one of them, a helper that is handed
+    one of them (or something built from one of them) as an argument."""
+    out = []
+    for (c, kind, node) in self.unfollowed(keep):
+      if involved is None:
+        out.append(c)
+        continue
+      names = set(involved)
+      if kind == "closure":
+        if any(isinstance(y, ast.Name) and y.id in names for y in ast.walk(node)):
+          out.append(c)
+        continue
+      args = list(c.args) + [k.value for k in c.keywords]
+      hit = False
+      for a in args:
+        raw = {y.id for y in ast.walk(a) if isinstance(y, ast.Name)}
+        exp = {y.id for y in ast.walk(self.x(a)) if isinstance(y, ast.Name)}
+        if (raw | exp) & names:
+          hit = True
+      if hit:
+        out.append(c)
+    return out
+
   def alternatives(self, expr, at=None, facts=None, depth=6):
     """Every value `expr` may have where it is evaluated, as [(value expr, node id at which that
     value is computed, facts known on the way)]: locals that name the value are followed, a
@@ -1441,6 +1543,20 @@ class View(object):
 
     go(expr, nid, facts, depth)
     return out
+
+  def binding(self, expr, at=None):
+    """The expression a local was bound to (its unique reaching plain assignment), also when the
+    object is modified in place afterwards (x/t keep such names, because the name is the object's
+    identity). The expression itself when it is not such a local."""
+    nid = at if at is not None else self.point_of(expr)
+    if isinstance(expr, ast.Name) and nid is not None:
+      defs = self.reaching(expr.id, nid)
+      if len(defs) == 1:
+        d = next(iter(defs))
+        v = self._plain_value(expr.id, d) if d != self.ENTRY else None
+        if v is not None:
+          return v
+    return expr
 
   def alias_root(self, expr, at=None):
     """`expr` with locals that merely rename another name or an items()/values()/keys() view
